@@ -107,13 +107,13 @@ Definition get_job (s : pool) (j : Z) : option job :=
 Definition cached (s : pool) (j : Z) : option job :=
   match get_job s j with Some x => if incache x then Some x else None | None => None end.
 Definition set_job (s : pool) (j : Z) (f : job -> job) : pool :=
-  mkpool (upd_nth (Z.to_nat j) f (jobs s)) (procs s) (wlist s) (nprocs s) (sem s) (putlocks s)
+  mkpool (if j <? 0 then jobs s else upd_nth (Z.to_nat j) f (jobs s)) (procs s) (wlist s) (nprocs s) (sem s) (putlocks s)
          (rst s) (now s) (pstate s) (t_soft s) (t_hard s) (dflt_lost s) (scanner s) (dirty s)
          (feeds s) (sigs s).
 Definition get_proc (s : pool) (p : Z) : option proc :=
   if p <? 0 then None else nth_error (procs s) (Z.to_nat p).
 Definition set_proc (s : pool) (p : Z) (f : proc -> proc) : pool :=
-  mkpool (jobs s) (upd_nth (Z.to_nat p) f (procs s)) (wlist s) (nprocs s) (sem s) (putlocks s)
+  mkpool (jobs s) (if p <? 0 then procs s else upd_nth (Z.to_nat p) f (procs s)) (wlist s) (nprocs s) (sem s) (putlocks s)
          (rst s) (now s) (pstate s) (t_soft s) (t_hard s) (dflt_lost s) (scanner s) (dirty s)
          (feeds s) (sigs s).
 Definition with_sem (s : pool) (x : LaxSem.sem) : pool :=
@@ -279,7 +279,12 @@ Definition job_set (x : job) (i : option Z) (p : payload) : job * bool :=
   | KIMapU => imapu_set x p
   end.
 
+Definition is_imap (x : job) : bool :=
+  match kind x with KIMap | KIMapU => true | _ => false end.
+
+(* only imap jobs are ever queued with a set_length callback *)
 Definition set_length (x : job) (n : Z) : job * bool :=
+  if negb (is_imap x) then (x, false) else
   if okey_eqb (Some (index x)) (Some n)
   then (mk_imap x false true (index x) (Some n) (unsorted x) (items x), negb (incache x))
   else (mk_imap x (incache x) (ready x) (index x) (Some n) (unsorted x) (items x), false).
@@ -407,16 +412,17 @@ Definition mark_lost (x : job) : job * bool :=
   | None => (x, false)
   end.
 
-(* returns the pool and whether some `del cache[job]` raised KeyError *)
-Definition mark_all_lost (s : pool) : pool * bool :=
-  let due := map jid (filter (lost_due s) (jobs s)) in
-  fold_left (fun (acc : pool * bool) j =>
-               let (s, e) := acc in
-               if e then acc else
-               match get_job s j with
-               | Some x => let (x', e') := mark_lost x in (set_job s j (fun _ => x'), e')
-               | None => acc
-               end) due (s, false).
+(* Both loops of _join_exited_workers treat every cached job independently of the
+   others (a job's update reads only itself, the clock and the process table), so
+   they are maps over the job list.  `del cache[job]` inside IMapIterator._set cannot
+   raise here: both loops only visit jobs that are in the cache. *)
+Definition map_jobs (s : pool) (f : job -> job) : pool :=
+  mkpool (map f (jobs s)) (procs s) (wlist s) (nprocs s) (sem s) (putlocks s)
+         (rst s) (now s) (pstate s) (t_soft s) (t_hard s) (dflt_lost s) (scanner s) (dirty s)
+         (feeds s) (sigs s).
+
+Definition mark_all_lost (s : pool) : pool :=
+  map_jobs s (fun x => if lost_due s x then fst (mark_lost x) else x).
 
 Definition exited (s : pool) (p : Z) : bool :=
   match get_proc s p with Some q => match pexit q with Some _ => true | None => false end | None => false end.
@@ -442,26 +448,18 @@ Definition on_job_down (s : pool) (cleaned remaining : list Z) (x : job) : job *
   | None => (x, false)
   end.
 
-Definition join_exited (s : pool) : pool * list Z * bool :=
-  let (s, e1) := mark_all_lost s in
-  if e1 then (s, [], true) else
+Definition down_all (s : pool) (cleaned remaining : list Z) : pool :=
+  map_jobs s (fun x => if incache x then fst (on_job_down s cleaned remaining x) else x).
+
+Definition join_exited (s : pool) : pool * list Z :=
+  let s := mark_all_lost s in
   let cleaned := filter (exited s) (rev (wlist s)) in       (* reversed pool order *)
   let remaining := filter (fun p => negb (exited s p)) (wlist s) in
   let codes := map (exit_of s) cleaned in
   let s := with_wlist s remaining in
   match cleaned with
-  | [] => (s, [], false)
-  | _ =>
-    let ids := map jid (filter incache (jobs s)) in
-    let '(s, e) := fold_left (fun (acc : pool * bool) j =>
-                             let (s, e) := acc in
-                             if e then acc else
-                             match cached s j with
-                             | Some x => let (x', e') := on_job_down s cleaned remaining x in
-                                         (set_job s j (fun _ => x'), e')
-                             | None => acc
-                             end) ids (s, false) in
-    (s, codes, e)
+  | [] => (s, [])
+  | _ => (down_all s cleaned remaining, codes)
   end.
 
 Definition avail_index (s : pool) : option Z :=
@@ -503,8 +501,7 @@ Definition release_n (s : pool) (n : nat) : pool :=
   with_sem s (Nat.iter n LaxSem.release (sem s)).
 
 Definition do_tick (s : pool) : pool * ret :=
-  let '(s, codes, e) := join_exited s in
-  if e then (s, RExc 13) else
+  let (s, codes) := join_exited s in
   let missing := Z.to_nat (nprocs s - Z.of_nat (length (wlist s))) in
   let (s, r) := repopulate missing 0 codes s in
   match r with
@@ -521,9 +518,10 @@ Definition timed_out (s : pool) (start timeout : option Z) : bool :=
 
 Definition owner (x : job) : option Z := match wp x with p :: _ => Some p | [] => None end.
 
-Definition on_hard (s : pool) (x : job) (lingers : bool) : pool :=
+(* j is the cache key under which the scan found x *)
+Definition on_hard (s : pool) (j : Z) (x : job) (lingers : bool) : pool :=
   if ready x then s else
-  let s := set_job s (jid x) (fun x => j_add_tmo (apply_set x (PTimeLimit (hard x))) (false, hard x)) in
+  let s := set_job s j (fun x => j_add_tmo (apply_set x (PTimeLimit (hard x))) (false, hard x)) in
   match owner x with
   | Some p =>
     if in_pool s p then
@@ -534,16 +532,21 @@ Definition on_hard (s : pool) (x : job) (lingers : bool) : pool :=
   | None => s
   end.
 
-Definition on_soft (s : pool) (x : job) (lingers : bool) : pool :=
+Definition on_soft (s : pool) (j : Z) (x : job) (lingers : bool) : pool :=
   if ready x then s else
   match owner x with
   | Some p =>
     if in_pool s p then
-      let s := set_job s (jid x) (fun x => j_add_tmo x (true, soft x)) in
+      let s := set_job s j (fun x => j_add_tmo x (true, soft x)) in
       deliver s p SIGUSR1 lingers
     else s
   | None => s
   end.
+
+Definition eff_soft (s : pool) (x : job) : option Z :=
+  match soft x with Some v => Some v | None => t_soft s end.
+Definition eff_hard (s : pool) (x : job) : option Z :=
+  match hard x with Some v => Some v | None => t_hard s end.
 
 Definition scan_job (lingers : bool) (s : pool) (j : Z) : pool :=
   match get_job s j with
@@ -551,11 +554,9 @@ Definition scan_job (lingers : bool) (s : pool) (j : Z) : pool :=
   | Some x =>
     match kind x, time_accepted x with
     | KApply, Some t =>
-      let so := match soft x with Some v => Some v | None => t_soft s end in
-      let ha := match hard x with Some v => Some v | None => t_hard s end in
-      if timed_out s (Some t) ha then on_hard s x lingers
-      else if negb (memZ j (dirty s)) && timed_out s (Some t) so
-           then with_dirty (on_soft s x lingers) (dirty s ++ [j])
+      if timed_out s (Some t) (eff_hard s x) then on_hard s j x lingers
+      else if negb (memZ j (dirty s)) && timed_out s (Some t) (eff_soft s x)
+           then with_dirty (on_soft s j x lingers) (dirty s ++ [j])
            else s
     | _, _ => s       (* not accepted yet, or a multi-part job: no scalar acceptance time *)
     end
@@ -595,7 +596,7 @@ Fixpoint do_feeds (fs : list (Z * Z * bool)) (k : Z) (fail_at : option Z) (io : 
     else
       let (s, e) := if sl then
                       match get_job s j with
-                      | Some x => let (x', e) := set_length x n in (set_job s j (fun _ => x'), e)
+                      | Some x => (set_job s j (fun x => fst (set_length x n)), snd (set_length x n))
                       | None => (s, false)
                       end
                     else (s, false) in
@@ -645,6 +646,7 @@ Definition do_next (s : pool) (j : Z) : pool * ret :=
   match get_job s j with
   | None => (s, RExc 15)
   | Some x =>
+    if negb (is_imap x) then (s, RExc 16) else      (* only imap handles are iterated *)
     match items x with
     | p :: r =>
       let s := set_job s j (fun x => mk_imap x (incache x) (ready x) (index x) (ilength x) (unsorted x) r) in
